@@ -904,6 +904,65 @@ func garbageDecode(c *Ctx, suite string, n int) {
 			got = c.M.Call("mq_rawdecode", strconv.Itoa(nb), Hex(k.data))
 		}
 		c.CorrEq(suite+"_raw", "mq:raw:garbage", got, want, in)
+		// Decode(ctx) and RawDecode() interleaved on one MQ decoder (T1 lazy passes on a live
+		// decoder); observable: the bits and the final read position
+		mrng := NewRand(uint64(i)*7919 + 13)
+		nm := len(k.s.ctxs)
+		if nm > 1200 {
+			nm = 1200
+		}
+		kinds := make([]int, nm)
+		runRaw := 0
+		for j := range kinds {
+			if runRaw > 0 {
+				kinds[j] = 1
+				runRaw--
+			} else if mrng.Intn(12) == 0 {
+				runRaw = mrng.Range(1, 40)
+				kinds[j] = 1
+			}
+		}
+		mixed := make([]int, nm)
+		bp := int64(0)
+		p, msg = Safely(func() {
+			d := newDec(k.data, k.s)
+			for j := 0; j < nm; j++ {
+				if kinds[j] == 0 {
+					mixed[j] = d.Decode(k.s.ctxs[j])
+				} else {
+					mixed[j] = d.RawDecode()
+				}
+			}
+			bp = reflect.ValueOf(d).Elem().FieldByName("bp").Int()
+		})
+		want = fmt.Sprintf("ok:%s;%d", bitsString(mixed), bp)
+		if p {
+			want = "panic"
+			c.R.Fail("oracle", suite, "mq:mixed:panic", "MQ decoder with interleaved RawDecode panicked: "+msg, in)
+		}
+		if bp > int64(len(k.data)) {
+			c.R.Fail("oracle", suite, "mq:mixed:bp", fmt.Sprintf("read position %d beyond the data length %d", bp, len(k.data)), in)
+		}
+		if c.HasModel() {
+			var sb strings.Builder
+			for j := 0; j < nm; j++ {
+				if j > 0 {
+					sb.WriteByte(',')
+				}
+				fmt.Fprintf(&sb, "%d:%d", kinds[j], k.s.ctxs[j])
+			}
+			ops := sb.String()
+			if nm == 0 {
+				ops = "_"
+			}
+			init := k.s.init
+			if init == nil {
+				init = make([]int, k.s.n)
+			}
+			got = c.M.Call("mq_mixed", Ints(init), ops, Hex(k.data))
+		}
+		in["kinds"] = Ints(kinds)
+		c.CorrEq(suite+"_mixed", "mq:mixed:garbage", got, want, in)
 	})
 }
 
